@@ -303,6 +303,7 @@ def replay_compile(decl_text):
     xrun.write(os.path.join(d, ".cargo", "config.toml"), "[net]\noffline = true\n")
     shutil.copy(os.path.join(xrun.REPO, "Cargo.lock"), os.path.join(d, "Cargo.lock"))
     xrun.write(os.path.join(d, "src", "main.rs"), ACC_REPLAY_MAIN.format(decl=decl_text))
+    shutil.copy(os.path.join(xrun.VERIF, "spec", "spec.rs"), os.path.join(d, "src", "spec.rs"))
     rc, out = xrun.sh(["cargo", "build", "--offline", "-q"], cwd=d, env={"CARGO_TARGET_DIR": os.path.join(xrun.WORK, "target-replay")}, timeout=900)
     shutil.rmtree(d, ignore_errors=True)
     out = "\n".join(l for l in out.splitlines() if "WARNING conda" not in l)
